@@ -57,6 +57,12 @@ type Frame struct {
 	curIdx   int
 	deferred []string
 	letVals  map[string]Val
+	rangeVisited []rangeVis
+}
+
+type rangeVis struct {
+	r    *ssa.Range
+	heap string
 }
 
 func (g *Gen) newFrame(fn *ssa.Function, fc *FuncContract, depth int, prefix string) *Frame {
@@ -338,6 +344,16 @@ func (fr *Frame) lookupAt(name string, b *ssa.BasicBlock, idx int, st *State) (V
 	}
 	if v, ok := fr.letVals[name]; ok {
 		return v, true
+	}
+	if name == "visited" && len(fr.rangeVisited) > 0 {
+		// the set of keys already yielded by the (innermost dominating) map range
+		for i := len(fr.rangeVisited) - 1; i >= 0; i-- {
+			rv := fr.rangeVisited[i]
+			if b == nil || rv.r.Block().Dominates(b) {
+				h := rv.heap
+				return Val{T: fr.g.heapGet(st, h), Sort: fr.g.heapSort(h)}, true
+			}
+		}
 	}
 	return Val{}, false
 }
